@@ -73,6 +73,9 @@ def cases():
         proj = [("d", "real"), ("d", "real/proj"), ("f", "real/proj/p.py", "p = 1\n"), ("d", "real/proj/pkg"),
                 ("f", "real/proj/pkg/q.py", "q = 2\n"), ("l", "link", "real")]
         add("ws_inside_input_symlinked_parent_" + f, "{B}/link/proj/out", ["{B}/link/proj"], force, setup=proj)
+        # the same directory spelled in two ways: one of workspace / input goes through the symlinked parent, the other does not
+        add("ws_inside_input_ws_via_link_" + f, "{B}/link/proj/out", ["{B}/real/proj"], force, setup=proj)
+        add("ws_inside_input_input_via_link_" + f, "{B}/real/proj/out", ["{B}/link/proj"], force, setup=proj)
         add("ws_symlinked_parent_" + f, "{B}/link/wsdir", ["{B}/in"], force, setup=proj)
         add("input_symlinked_parent_" + f, "{B}/ws", ["{B}/link/proj"], force, setup=proj)
         add("dotdot_input_" + f, "{B}/out/ws", ["../../../in"], force, setup=[("d", "run/x/y"), ("d", "out")], cwd="run/x/y")
